@@ -78,6 +78,7 @@ def initial_state(con, fn_node, mi):
     st = State()
     st.alloc = z3.Int("alloc@0")
     st.assume(st.alloc >= 1)
+    st.ralloc = z3.Int("ralloc@0")
     st.frames[0].func = (mi, fn_node)
     names = [a.arg for a in fn_node.args.posonlyargs + fn_node.args.args + fn_node.args.kwonlyargs]
     for n in names:
@@ -99,6 +100,8 @@ def initial_state(con, fn_node, mi):
             st.assume(z3.Or(*[cm[v.z] == CLASSES[c]["id"] for c in subclasses(ty.cls)]))
         if isinstance(ty, TRow) and ty.known:
             st.assume(smt.isgap(v.z) if ty.known == "gap" else z3.Not(smt.isgap(v.z)))
+        if isinstance(ty, TRow) and not (con.kind == "init" and n == "self"):
+            st.assume(z3.Implies(z3.Not(smt.isgap(v.z)), smt.oid(v.z) < st.ralloc))
         st.frames[0].vars[n] = v
     return st, names
 
@@ -137,6 +140,7 @@ def verify_function(qualname, opts=None):
         args = {n: st.frames[0].vars[n] for n in names}
         old = st.clone()
         o = NS(old, dict(args))
+        eng.pre_ns = o
         if con.kind == "init" and isinstance(con.params.get("self"), TRow):
             st.ghost["init_row"] = (args["self"].z, {})
         if con.requires is not None:
@@ -201,6 +205,7 @@ def verify_function(qualname, opts=None):
                         "status": "pending",
                         "smt2": smt.export_query(ob.pc, ob.goal, ob.axioms),
                         "relaxed": smt.export_relaxed(ob.pc, ob.goal) if ob.axioms is None else None,
+                        "noseq": smt.export_noseq(ob.pc, ob.goal, ob.axioms),
                     }
                 )
             rep.status = "PENDING"
@@ -281,6 +286,8 @@ def _frame_obligations(eng, con, o, old, s, line):
                     allowed.setdefault(nm, []).append(loc[2])
             elif loc[0] == "map":
                 allowed[loc[1]] = None
+            elif loc[0] == "fresh-objs":
+                pass  # only references allocated during the call: the default frame (r < alloc@0) applies
     for name, cur in s.heap.items():
         init = z3.Const(f"{name}@0", cur.sort())
         if cur.eq(init):
